@@ -79,6 +79,13 @@ func genCase(r *hlib.Rand, emit func(string, ...any), nops int, tick, span int64
 	emit("drain")
 }
 
+func max64(a, b int64) int64 {
+	if a > b {
+		return a
+	}
+	return b
+}
+
 func min64(a, b int64) int64 {
 	if a < b {
 		return a
@@ -116,6 +123,26 @@ func gen(r *hlib.Rand, n int, tier, profile string, emit func(string, ...any)) {
 						emit("adv %d", now)
 						emit("drain")
 					}
+				}
+			}
+		}
+	}
+	// deterministic family (independent of the random stream): wheels whose span is not a multiple of the
+	// tick, an item added late inside the current tick with a timeout in (floor(span/tick)*tick, span] or
+	// above the span; the wheel is then advanced tick by tick (and at every sub-tick phase) and drained.
+	id := 0
+	for _, ts := range [][2]int64{{3, 10}, {10, 25}, {7, 20}, {1000, 2500}, {4, 5}, {3, 3}, {5, 2}} {
+		tick, span := ts[0], ts[1]
+		for _, phase := range []int64{0, tick - 1, tick / 2} {
+			for _, t := range []int64{span, span - 1, span + 1, 100 * span, (span/tick)*tick + 1, (span / tick) * tick} {
+				emit("reset %d %d", tick, span)
+				emit("adv 0")
+				emit("adv %d", tick+phase)
+				id++
+				emit("add %d %d", id, t)
+				for now := tick + phase; now <= tick+phase+span+3*tick; now += max64(tick/2, 1) {
+					emit("adv %d", now)
+					emit("drain")
 				}
 			}
 		}
